@@ -120,6 +120,7 @@ def expected(report, requested=None):
     """Compute the expected outcome of resolving `report`."""
     fbs = list(report.feedback) + list(report.ignored_feedback)
     triggered = list(report.feedback)
+    on_triggered_list = {id(fb) for fb in triggered}      # the report's own record of the outcome - not the object's __bool__
     if requested is None:
         sup, suplab = report.suppressions, report.suppressed_labels
     else:
@@ -131,8 +132,6 @@ def expected(report, requested=None):
         why = suppression_reason(fb, sup, suplab)
         if why:
             e.status[id(fb)] = 'suppressed:' + why
-        elif not bool(fb):
-            e.status[id(fb)] = 'untriggered'
         elif fb.muted:
             e.status[id(fb)] = 'muted'
         elif fb.kind == COMPLIMENT:
@@ -170,7 +169,7 @@ def expected(report, requested=None):
         except Unmodelled as u:
             e.score_unmodelled = str(u)
             continue
-        trig = bool(fb)
+        trig = id(fb) in on_triggered_list
         neg = (fb.valence == NEGATIVE)
         awarded = (trig and not neg) or (neg and not trig)
         e.contrib.append((fb, v, awarded))
